@@ -78,6 +78,10 @@ def _asm_sig(prop, msg, p=None):
             m = re.search(r"offending line: (\S+)", msg)
             reason = re.sub(r"`[^']*'", "", msg.split("GNU as: ", 1)[-1].split("  [")[0]).strip()
             return "listing-rejected:%s:%s" % (m.group(1) if m else "?", re.sub(r"[^A-Za-z0-9 -]", "", reason)[:50])
+        if "rejected by llvm-mc" in msg:
+            m = re.search(r"offending line: (\S+)", msg)
+            reason = msg.split("llvm-mc: ", 1)[-1].split("  [")[0].strip()
+            return "listing-rejected:%s:%s" % (m.group(1) if m else "?", re.sub(r"[^A-Za-z0-9 -]", "", reason)[:50])
         return "listing-problem"
     m = re.search(r"`(\w+)' is not supported", msg)
     if m:
@@ -478,7 +482,7 @@ NATIVE_EXCLUDES = ["special-load-shared-source", "acc-nonarray-source", "mmx-64b
 PROPS["C10"] = dict(
     excludes=NATIVE_EXCLUDES,
     variant="plain",
-    sources=ENGINE + ["props/c01_native.c"],
+    sources=ENGINE + ["props/c01_native.c", "engine/run32.c", "engine/tramp32.S"],
     cflags=["-DC10_MODE"],
     level="exploration",
     technique="generated programs called through an assembly trampoline that seeds and checks machine state (state-invariant oracle)",
@@ -496,7 +500,11 @@ PROPS["C10"] = dict(
           "and called with n*m > 0; classes count programs whose listing saves callee-saved registers, sets MXCSR or uses MMX registers. "
           "Oracle after every call: rbx, rbp, r12-r15 and rsp unchanged; 128 bytes of caller stack above the return address unchanged; "
           "MXCSR control bits and x87 control word unchanged; x87 tag word all-empty; DF clear; bytes before the executor and every "
-          "array byte outside the destination elements unchanged."),
+          "array byte outside the destination elements unchanged. Every other case the program is compiled once more as 32-bit code "
+          "(default flags without 64BIT, with or without the frame-pointer flag) and run inside this process through a far call into "
+          "the compatibility-mode code segment, with code, stack, executor and arrays mapped below 4 GiB (engine/run32.c; probed at "
+          "start-up, skipped where the kernel refuses): ebx, esi, edi, ebp and esp unchanged, MXCSR control bits, DF and x87 tags as "
+          "above, integer results equal to emulation, no stray write."),
     assumptions=["x86-64 System V calling convention", "dirty upper halves of ymm registers are not an ABI matter"],
 )
 
